@@ -29,7 +29,7 @@ EXPLANATION = (
     "load_latency and the multipliers map to numbers. D2: --db-check appends to each list under "
     "`is None` of the like-named field, returns/unpacks/passes the lists in matching order and prints "
     "len() of the right list. R3: every reader that indexes port_uops as a list of pairs is dominated "
-    "by a resolution of an alternatives map, on the --fixed path too. D0b: the fields the schema allows to be missing (throughput / latency `~`) are tested for None by every consumer before arithmetic, max() or += - in the direct path and where an entry is used as the register form of a memory instruction (obligation of C08-R2, embedded)."
+    "by a resolution of an alternatives map, on the --fixed path too. D0b: the fields the schema allows to be missing (throughput / latency `~`) are tested for None by every consumer before arithmetic, max() or += - in the direct path and where an entry is used as the register form of a memory instruction (obligation of C08-R2, embedded). D0c: a value read from the path-keyed in-process cache never becomes a model object's data unless it is overwritten or re-validated against the file content (C17-R5, embedded): otherwise --db-check and the costing code see entries an earlier import added, not the shipped file."
 )
 NOT_DECIDED = (
     "That no other run-time path crashes for an instruction matching a shipped form (only the "
@@ -725,6 +725,38 @@ def run(ctx):
     ctx.rule("D0b", "None-able entry fields (throughput, latency: ~ is allowed by the schema) are tested before arithmetic (C08-R2)")
     C.embed(ctx, "C08", c08._r2, "D0b", "missing measurement (C08-R2)",
             "a shipped form with `throughput: ~` / `latency: ~` - which the schema allows - cannot be costed", ctx.func("ArchSemantics.assign_tp_lt").where())
+    # D0c: what --db-check and the costing code see is the content of the model FILE: a model object must not take over the
+    # data of an earlier object for the same path (which an import or an analysis may have edited) - C17-R5
+    from . import c17
+    from .. import report as _report
+    from ..srcmodel import AnalysisError
+    ctx.rule("D0c", "every model object works on data loaded from the file's present content, not on another object's (C17-R5)")
+    sub = _report.Ctx("C17", ctx.repo, ctx.tier, ctx.data)
+    err = None
+    try:
+        c17.run(sub)
+    except AnalysisError as e:
+        err = e
+    n_f = 0
+    for fd in sub.findings:
+        if fd.rule == "R5":
+            n_f += 1
+            ctx.bad("D0c", "model data per object (C17-R5): " + fd.construct, fd.where, "the entries that are checked / costed are those of an "
+                    "object edited earlier in the process (set_instruction appends parsed forms to it), not those of the shipped file: "
+                    + fd.detail, fd.scope, fd.construct)
+    for ob in sub.obligations:
+        if ob["rule"] == "R5" and ob["status"] not in ("violated", "not-understood"):
+            new_ob = dict(ob)
+            new_ob["rule"] = "D0c"
+            new_ob["instance"] = "C17-R5: " + ob["instance"]
+            ctx.obligations.append(new_ob)
+    for u in getattr(sub, "unknowns", []):
+        if u.startswith("R5 "):
+            ctx.unknown("D0c", "model data per object (C17-R5)", ctx.func("MachineModel.__init__").where(), u)
+    if err is not None and not n_f:
+        ctx.unknown("D0c", "model data per object (C17-R5)", ctx.func("MachineModel.__init__").where(), str(err)[:200])
+    ctx.functions |= sub.functions
+    ctx.files |= sub.files
     ctx.rule("D1", "every entry / table row / default of every non-empty data file satisfies the schema")
     models = ctx.data.models()
     isas = ctx.data.isas()
